@@ -5,9 +5,10 @@
 set -u
 ID="$1"; DEMO="$2"; shift 2; CHECKS=("$@")
 ROOT="$(cd "$(dirname "$0")/.." && pwd)"
-OUT=/tmp/seed-out/$ID
-WT=/tmp/seedv-$ID
-SRC=/tmp/seed-$ID
+PFX="${SEED_PREFIX:-seed}"
+OUT=/tmp/$PFX-out/$ID
+WT=/tmp/${PFX}v-$ID
+SRC=/tmp/$PFX-$ID
 export CARGO_NET_OFFLINE=true
 git -C /repo worktree remove --force "$WT" 2>/dev/null; rm -rf "$WT"
 git -C /repo worktree add --detach "$WT" HEAD >/dev/null 2>&1 || { echo "cannot create $WT"; exit 2; }
